@@ -11,7 +11,7 @@ META = {
     "property_id": "C39",
     "level": "model_checking",
     "technique": "TLA+ spec Privileges.tla model-checked by TLC (bounded exhaustive + simulated histories with invariants); TLC-generated grant/revoke/role histories and the exhaustive transition dump of a small vocabulary replayed as real SQL on an engine with the mysql privilege database enabled; stored access-control state and a probe matrix (every statement class x object x user) recorded after every step and validated by TLC against Trace_Privileges.tla (Allowed/Requirement)",
-    "text": "TLC checks the privilege model (hierarchy monotone, revoke inverts grant, no orphan grants, denied statement has no effect, strict role activation within all-roles-active) on a bounded vocabulary, and generates histories of CREATE/DROP USER/ROLE, GRANT/REVOKE of privilege sets and ALL at global/database/table level, GRANT/REVOKE role (WITH ADMIN OPTION), SET ROLE, SET DEFAULT ROLE and reconnects. Each history is executed as root on the real engine; after every step the engine's stored privilege sets and role edges are compared with the specification state and 67 statements per user (SELECT/INSERT/UPDATE/DELETE/DROP/ALTER/CREATE INDEX/GRANT per table, CREATE TABLE per database, CREATE USER, GRANT role) are run in that user's own session, recording allow / access-denied / other error and whether the data projection is unchanged; TLC decides every expected outcome from Allowed(user, Requirement(class, object)).",
+    "text": "TLC checks the privilege model (hierarchy monotone, revoke inverts grant, no orphan grants, denied statement has no effect, strict role activation within all-roles-active) on a bounded vocabulary, and generates histories of CREATE/DROP USER/ROLE, GRANT/REVOKE of privilege sets and ALL at global/database/table level, GRANT/REVOKE role (WITH ADMIN OPTION), SET ROLE, SET DEFAULT ROLE and reconnects. Each history is executed by a super user on the real engine; after every step the engine's stored privilege sets and role edges are compared with the specification state and 36 statements per user (SELECT/INSERT/UPDATE/DELETE/DROP/ALTER/CREATE INDEX/GRANT per table, CREATE TABLE per database, CREATE USER, GRANT role) are run in that user's own session, recording allow / access-denied / other error and whether the data projection is unchanged; TLC decides every expected outcome from Allowed(user, Requirement(class, object)). A second vocabulary with one user name at two hosts (u1@localhost, u1@%) checks that account-management statements act on exactly the account they name.",
     "note": "Requirement is written from the MySQL manual (statement pages), not from auth_default.go. Documented engine behaviours modelled as named operators: AllGrantedRolesActive (no SET ROLE; a probe allowed only through a role that SET ROLE NONE deactivated is reported as its own mismatch kind) and SuperAllowsEverything. Not judged: column/routine/dynamic privileges, role-to-role grants, REVOKE ALL while GRANT OPTION is held at that level, re-GRANT of a role with a different ADMIN OPTION, sessions of dropped accounts (closed by the replayer). Probes use statements that read no column (UPDATE .. SET b = const, DELETE .. WHERE 1 = 1). Trusted: TLC, the SQL rendering and the reading of mysql_db's PrivilegeSet in harness/cmd/priv (about 150 lines).",
     "design_ref": "§7 C39, §3.3",
 }
